@@ -468,6 +468,7 @@ package pokertable
 //@   property C02 C10 C13 C14 C16
 //@   returns err
 //@   requires EngShape(te) && HandShape(te) && GameOn(te) && TableGsOK(te) && StatsInv(te) && !held(te.lock)
+//@   guarded te.lock : "pokertable.tableEngine.table", "pokertable.tableEngine.game", "pokertable.Table.", "pokertable.TableState.", "pokertable.TablePlayerState."
 //@   modifies St(te).LastPlayerGameAction, forall(i, 0, 10, PS(te)[i].GameStatistics), te.game.gs, log
 //@   ensures not-playing-refused: !playing(te) ==> err != nil && noCall()
 //@   ensures stranger-refused: !inHand(te, playerID) ==> err != nil && noCall()
@@ -485,6 +486,7 @@ package pokertable
 //@   property C02 C10 C13 C14 C16
 //@   returns err
 //@   requires EngShape(te) && HandShape(te) && GameOn(te) && TableGsOK(te) && StatsInv(te) && !held(te.lock)
+//@   guarded te.lock : "pokertable.tableEngine.table", "pokertable.tableEngine.game", "pokertable.Table.", "pokertable.TableState.", "pokertable.TablePlayerState."
 //@   modifies St(te).LastPlayerGameAction, forall(i, 0, 10, PS(te)[i].GameStatistics), te.game.gs, log
 //@   ensures not-playing-refused: !playing(te) ==> err != nil && noCall()
 //@   ensures stranger-refused: !inHand(te, playerID) ==> err != nil && noCall()
@@ -502,6 +504,7 @@ package pokertable
 //@   property C02 C10 C13 C14 C16
 //@   returns err
 //@   requires EngShape(te) && HandShape(te) && GameOn(te) && TableGsOK(te) && StatsInv(te) && !held(te.lock)
+//@   guarded te.lock : "pokertable.tableEngine.table", "pokertable.tableEngine.game", "pokertable.Table.", "pokertable.TableState.", "pokertable.TablePlayerState."
 //@   modifies St(te).LastPlayerGameAction, forall(i, 0, 10, PS(te)[i].GameStatistics), te.game.gs, log
 //@   ensures not-playing-refused: !playing(te) ==> err != nil && noCall()
 //@   ensures stranger-refused: !inHand(te, playerID) ==> err != nil && noCall()
@@ -519,6 +522,7 @@ package pokertable
 //@   property C02 C10 C13 C14 C16
 //@   returns err
 //@   requires EngShape(te) && HandShape(te) && GameOn(te) && TableGsOK(te) && StatsInv(te) && !held(te.lock)
+//@   guarded te.lock : "pokertable.tableEngine.table", "pokertable.tableEngine.game", "pokertable.Table.", "pokertable.TableState.", "pokertable.TablePlayerState."
 //@   modifies St(te).LastPlayerGameAction, forall(i, 0, 10, PS(te)[i].GameStatistics), te.game.gs, log
 //@   ensures not-playing-refused: !playing(te) ==> err != nil && noCall()
 //@   ensures stranger-refused: !inHand(te, playerID) ==> err != nil && noCall()
@@ -536,6 +540,7 @@ package pokertable
 //@   property C02 C10 C13 C14 C16
 //@   returns err
 //@   requires EngShape(te) && HandShape(te) && GameOn(te) && TableGsOK(te) && StatsInv(te) && !held(te.lock)
+//@   guarded te.lock : "pokertable.tableEngine.table", "pokertable.tableEngine.game", "pokertable.Table.", "pokertable.TableState.", "pokertable.TablePlayerState."
 //@   modifies St(te).LastPlayerGameAction, forall(i, 0, 10, PS(te)[i].GameStatistics), te.game.gs, log
 //@   ensures not-playing-refused: !playing(te) ==> err != nil && noCall()
 //@   ensures stranger-refused: !inHand(te, playerID) ==> err != nil && noCall()
@@ -553,6 +558,7 @@ package pokertable
 //@   property C02 C10 C13 C14 C16
 //@   returns err
 //@   requires EngShape(te) && HandShape(te) && GameOn(te) && TableGsOK(te) && StatsInv(te) && !held(te.lock)
+//@   guarded te.lock : "pokertable.tableEngine.table", "pokertable.tableEngine.game", "pokertable.Table.", "pokertable.TableState.", "pokertable.TablePlayerState."
 //@   modifies St(te).LastPlayerGameAction, forall(i, 0, 10, PS(te)[i].GameStatistics), te.game.gs, log
 //@   ensures not-playing-refused: !playing(te) ==> err != nil && noCall()
 //@   ensures stranger-refused: !inHand(te, playerID) ==> err != nil && noCall()
@@ -570,6 +576,7 @@ package pokertable
 //@   property C02 C10 C13 C14 C16
 //@   returns err
 //@   requires EngShape(te) && HandShape(te) && GameOn(te) && TableGsOK(te) && StatsInv(te) && !held(te.lock)
+//@   guarded te.lock : "pokertable.tableEngine.table", "pokertable.tableEngine.game", "pokertable.Table.", "pokertable.TableState.", "pokertable.TablePlayerState."
 //@   modifies St(te).LastPlayerGameAction, forall(i, 0, 10, PS(te)[i].GameStatistics), te.game.gs, log
 //@   ensures not-playing-refused: !playing(te) ==> err != nil && noCall()
 //@   ensures stranger-refused: !inHand(te, playerID) ==> err != nil && noCall()
@@ -670,6 +677,7 @@ package pokertable
 //@   returns err
 //@   config M 2..10 : te.table.Meta.TableMaxSeatCount = M, te.sm.MaxSeat = M, len(te.sm.SeatData) = M
 //@   requires TableWF(te) && Coupled(te) && HandShape(te) && 0 <= len(playerIDs) && len(playerIDs) <= MaxSeats(te) && !held(te.lock)
+//@   guarded te.lock : "pokertable.tableEngine.table", "pokertable.tableEngine.sm", "pokertable.Table.", "pokertable.TableState.", "pokertable.TablePlayerState."
 //@   modifies St(te).PlayerStates, St(te).SeatMap, St(te).GamePlayerIndexes, te.sm.SeatData[all], te.table.UpdateAt, te.table.UpdateSerial, log
 //@   ensures inv: TableWF(te) && Coupled(te)
 //@   ensures unknown-refused: err != nil <==> exists(i, 0, 10, i < len(playerIDs) && !old(knows(te, playerIDs[i])))
@@ -929,3 +937,138 @@ package pokertable
 //@   ensures failure-is-reported-not-lost: callres(old(ncalls()) + 1, 1) != 0 ==> callfn(old(ncalls()) + 2) == "callback:onGameErrorUpdated"
 //@             && callarg(old(ncalls()) + 2, 1) == callres(old(ncalls()) + 1, 1) && unchanged(g.gs)
 //@   ensures success-applied-once: callres(old(ncalls()) + 1, 1) == 0 ==> callfn(old(ncalls()) + 2) == "game.enqueue" && callarg(old(ncalls()) + 2, 0) == callres(old(ncalls()) + 1, 0)
+
+// ---- starting the hand engine (C01 C02 C06 C07 C12) ------------------------------------------------
+
+//@ func extern github.com/weedbox/pokerface::NewStardardGameOptions
+//@   trusted allocates a fresh options object (deck and ranking tables are pokerface's business)
+//@   returns o
+//@   modifies nothing
+//@   allocates
+//@   ensures o != nil && fresh(o)
+//@ func extern github.com/weedbox/pokerface::NewShortDeckGameOptions
+//@   trusted allocates a fresh options object
+//@   returns o
+//@   modifies nothing
+//@   allocates
+//@   ensures o != nil && fresh(o)
+//@ func extern github.com/weedbox/pokerface::NewStandardDeckCards
+//@   trusted returns a fresh deck
+//@   returns d
+//@   modifies nothing
+//@   allocates
+//@   ensures fresh(d)
+//@ func extern github.com/weedbox/pokerface::NewShortDeckCards
+//@   trusted returns a fresh deck
+//@   returns d
+//@   modifies nothing
+//@   allocates
+//@   ensures fresh(d)
+
+//@ func NewGame
+//@   inline
+//@ func (*game).Start
+//@   inline
+//@ func (*game).GetGameState
+//@   inline
+
+//@ spec Opts(te) = te.game.opts
+
+//@ func (*tableEngine).startGame
+//@   property C01 C02 C06 C07 C12
+//@   returns err
+//@   requires EngShape(te) && HandShape(te) && len(GPI(te)) >= 1 && St(te).BlindState != nil && te.gameBackend != nil
+//@   requires forall(i, 0, 10, i < len(PS(te)) ==> 0 <= len(PS(te)[i].Positions) && len(PS(te)[i].Positions) <= 10)
+//@   modifies te.game, St(te).Status, St(te).GameBlindState, log
+//@   loop 0 unroll 10
+//@   ensures started: err == nil ==> St(te).Status == TableStateStatus_TableGamePlaying && ref(te.game) != 0 && typeis(te.game, "*pokertable.game") && fresh(te.game) && te.game.gs != nil
+//@   ensures failed-start-keeps-status: err != nil ==> unchanged(St(te).Status) && unchanged(St(te).GameBlindState)
+//@   ensures blinds-in-force-at-open: ref(te.game) != 0 && Opts(te) != nil && Opts(te).Ante == old(St(te).BlindState.Ante) && Opts(te).Blind.Dealer == old(St(te).BlindState.Dealer)
+//@             && Opts(te).Blind.SB == old(St(te).BlindState.SB) && Opts(te).Blind.BB == old(St(te).BlindState.BB)
+//@   ensures blind-level-published: err == nil ==> St(te).GameBlindState != nil && fresh(St(te).GameBlindState) && St(te).GameBlindState != St(te).BlindState
+//@             && St(te).GameBlindState.Level == old(St(te).BlindState.Level) && St(te).GameBlindState.Ante == old(St(te).BlindState.Ante)
+//@             && St(te).GameBlindState.Dealer == old(St(te).BlindState.Dealer) && St(te).GameBlindState.SB == old(St(te).BlindState.SB) && St(te).GameBlindState.BB == old(St(te).BlindState.BB)
+//@   ensures entry-k-starts-with-its-players-bankroll: len(Opts(te).Players) == len(GPI(te))
+//@             && forall(k, 0, 10, k < len(GPI(te)) ==> Opts(te).Players[k] != nil && Opts(te).Players[k].Bankroll == PS(te)[GPI(te)[k]].Bankroll)
+//@   ensures labels-forwarded: forall(k, 1, 10, k < len(GPI(te)) ==> sameslice(Opts(te).Players[k].Positions, PS(te)[GPI(te)[k]].Positions))
+//@   ensures backend-gets-these-options: exists(j, 0, 6, old(ncalls()) + j < ncalls() && callfn(old(ncalls()) + j) == "pokertable.GameBackend.CreateGame"
+//@             && callarg(old(ncalls()) + j, 0) == ref(Opts(te)) && callrecv(old(ncalls()) + j) == ref(te.gameBackend))
+
+//@ func (*tableEngine).onGameClosed
+//@   inline
+
+//@ func (*tableEngine).tableGameOpen
+//@   property C07 C08 C16
+//@   returns err
+//@   config M 2..10 : te.table.Meta.TableMaxSeatCount = M, te.sm.MaxSeat = M, len(te.sm.SeatData) = M
+//@   requires TableWF(te) && Coupled(te) && St(te).BlindState != nil && te.gameBackend != nil && !held(te.lock)
+//@   guarded te.lock : "pokertable.tableEngine.table", "pokertable.tableEngine.game", "pokertable.tableEngine.sm", "pokertable.Table.", "pokertable.TableState.", "pokertable.TablePlayerState."
+//@   modifies te.table, te.game, te.sm.DealerSeatID, te.sm.SBSeatID, te.sm.BBSeatID, te.sm.IsInit, forall(s, 0, M, te.sm.SeatData[s].IsBetweenDealerBB), log
+//@   loop 0 unroll 10
+//@   ensures closed-or-released-opens-nothing: old(St(te).Status == TableStateStatus_TableClosed) || te.isReleased ==> err == nil && unchanged(te.table) && unchanged(te.game) && noCall()
+//@   ensures unsettled-hand-blocks-a-new-one: old(St(te).GameState != nil) ==> err == nil && unchanged(te.table) && unchanged(te.game) && noCall()
+//@   ensures old-table-object-untouched: old(St(te).Status) == old(te.table).State.Status && old(St(te).GameCount) == old(te.table).State.GameCount
+//@   ensures each-open-counts-once: te.table != old(te.table) ==> St(te).GameCount == old(St(te).GameCount) + 1 && te.table.ID == old(te.table.ID)
+//@   ensures break-opens-nothing: old(St(te).BlindState.Level) == -1 ==> unchanged(te.table) && unchanged(te.game)
+
+// ---- arrivals, re-buys, add-ons (C01 C03 C05 C16) ------------------------------------------------------
+
+//@ func (*tableEngine).playersAutoIn
+//@   trusted re-arms the auto-join ready group (syncsaga calls and callbacks only; its completion handler runs later or never)
+//@   modifies log
+
+//@ func (*tableEngine).emitTablePlayerStateEvent
+//@   inline
+//@ func (*tableEngine).emitTablePlayerReservedEvent
+//@   inline
+
+//@ spec inBatchJP(players, id) = exists(i, 0, 10, i < len(players) && players[i].PlayerID == id)
+//@ spec batchOK(te, players) = 0 <= len(players) && len(players) <= MaxSeats(te)
+//@ spec allFixed(players) = forall(i, 0, 10, i < len(players) ==> players[i].Seat != -1)
+//@ spec allRandom(players) = forall(i, 0, 10, i < len(players) ==> players[i].Seat == -1)
+
+//@ func (*tableEngine).batchAddPlayers
+//@   property C01 C02 C03 C05
+//@   returns err
+//@   config M 2..10 quick 2..3 : te.table.Meta.TableMaxSeatCount = M, te.sm.MaxSeat = M, len(te.sm.SeatData) = M, len(te.table.State.SeatMap) = M
+//@   requires TableWF(te) && Coupled(te) && batchOK(te, players) && te.rg != nil
+//@   modifies St(te).PlayerStates, St(te).SeatMap, te.sm.SeatData[all], log
+//@   loop 0 unroll 10
+//@   loop 1 unroll 10
+//@   loop 2 unroll 10
+//@   ensures inv: TableWF(te) && Coupled(te)
+//@   ensures refused-changes-nothing: err != nil ==> playersSame(te) && seatsSame(te) && smSame(te)
+//@   ensures existing-players-keep-seat-and-chips: forall(i, 0, 10, i < old(len(PS(te))) ==> PS(te)[i] == old(PS(te)[i]) && PS(te)[i].Bankroll == old(PS(te)[i].Bankroll)
+//@             && PS(te)[i].Seat == old(PS(te)[i].Seat) && PS(te)[i].IsIn == old(PS(te)[i].IsIn))
+//@   ensures newcomers-appended-in-order: err == nil ==> len(PS(te)) == old(len(PS(te))) + len(players)
+//@             && forall(k, 0, 10, k < len(players) ==> fresh(PS(te)[old(len(PS(te))) + k]) && PS(te)[old(len(PS(te))) + k].PlayerID == players[k].PlayerID
+//@                   && PS(te)[old(len(PS(te))) + k].Bankroll == players[k].RedeemChips && !PS(te)[old(len(PS(te))) + k].IsIn && !PS(te)[old(len(PS(te))) + k].IsParticipated
+//@                   && (players[k].Seat != -1 ==> PS(te)[old(len(PS(te))) + k].Seat == players[k].Seat)
+//@                   && SeatMap(te)[PS(te)[old(len(PS(te))) + k].Seat] == old(len(PS(te))) + k)
+
+//@ func (*tableEngine).PlayerReserve
+//@   property C01 C03 C05 C16
+//@   returns err
+//@   config M 2..10 quick 2..4 : te.table.Meta.TableMaxSeatCount = M, te.sm.MaxSeat = M, len(te.sm.SeatData) = M, len(te.table.State.SeatMap) = M
+//@   requires TableWF(te) && Coupled(te) && te.rg != nil && !held(te.lock)
+//@   guarded te.lock : "pokertable.tableEngine.table", "pokertable.tableEngine.sm", "pokertable.Table.", "pokertable.TableState.", "pokertable.TablePlayerState."
+//@   modifies St(te).PlayerStates, St(te).SeatMap, te.sm.SeatData[all], forall(i, 0, 10, PS(te)[i].Bankroll), forall(s, 0, M, te.sm.SeatData[s].HasChips), te.table.UpdateAt, te.table.UpdateSerial, log
+//@   ensures inv: TableWF(te) && Coupled(te)
+//@   ensures full-table-refused: !knows(te, joinPlayer.PlayerID) && old(len(PS(te))) == MaxSeats(te) ==> err == ErrTableNoEmptySeats
+//@   ensures refused-changes-nothing: err != nil ==> playersSame(te) && seatsSame(te) && smSame(te)
+//@   ensures rebuy-adds-to-the-bankroll: err == nil ==> forall(i, 0, 10, i < old(len(PS(te))) ==> PS(te)[i] == old(PS(te)[i]) &&
+//@             PS(te)[i].Bankroll == old(PS(te)[i].Bankroll) + ite(old(PS(te)[i].PlayerID) == joinPlayer.PlayerID, joinPlayer.RedeemChips, 0))
+//@   ensures rebuy-restores-has-chips: err == nil ==> forall(i, 0, 10, i < old(len(PS(te))) && PS(te)[i].PlayerID == joinPlayer.PlayerID ==> te.sm.SeatData[PS(te)[i].Seat].HasChips)
+//@   ensures buyin-appends-one: err == nil && !old(knows(te, joinPlayer.PlayerID)) ==> len(PS(te)) == old(len(PS(te))) + 1
+//@             && PS(te)[old(len(PS(te)))].PlayerID == joinPlayer.PlayerID && PS(te)[old(len(PS(te)))].Bankroll == joinPlayer.RedeemChips
+
+//@ func (*tableEngine).PlayerRedeemChips
+//@   property C01
+//@   returns err
+//@   requires EngShape(te)
+//@   modifies forall(i, 0, 10, PS(te)[i].Bankroll), te.table.UpdateAt, te.table.UpdateSerial, log
+//@   ensures unknown-refused: !knows(te, joinPlayer.PlayerID) ==> err == ErrTablePlayerNotFound && forall(i, 0, 10, i < len(PS(te)) ==> PS(te)[i].Bankroll == old(PS(te)[i].Bankroll))
+//@   ensures addon-adds-to-the-bankroll: knows(te, joinPlayer.PlayerID) ==> err == nil
+//@   ensures exactly-that-much: err == nil ==> exists(i, 0, 10, i < len(PS(te)) && PS(te)[i].PlayerID == joinPlayer.PlayerID
+//@             && PS(te)[i].Bankroll == old(PS(te)[i].Bankroll) + joinPlayer.RedeemChips
+//@             && forall(j, 0, 10, j < len(PS(te)) && j != i ==> PS(te)[j].Bankroll == old(PS(te)[j].Bankroll)))
